@@ -213,7 +213,63 @@ def correspondence(ctx):
     ctx.notes.append('whole-program equivalence is differential testing, not a theorem')
 
 
+LOC_HEADER = ('From Coq Require Import List Bool Arith.\nImport ListNotations.\n'
+              'From Pedal Require Import model.C06_Location model.C06_Location_Run.\n')
+
+
+def location_correspondence(ctx):
+    """where a failure is located: ExpandedTraceback.line_number on real tracebacks of call chains through files of our choosing
+    (learner files, libraries, the grader's own file) against the Coq model"""
+    rng = ctx.rng
+    pool = ['answer.py', 'helper.py', '/usr/lib/python3/random.py', '/opt/lib/statistics.py', 'grader.py']
+    specs = []
+    # the shape of the repaired defect first: a learner line calling into a library that raises
+    specs.append({'chain': [['answer.py', 3], ['/usr/lib/python3/random.py', 347]], 'students': ['answer.py'], 'offsets': {}, 'syntax': None})
+    specs.append({'chain': [['grader.py', 9], ['answer.py', 4], ['helper.py', 7], ['/opt/lib/statistics.py', 120], ['/opt/lib/statistics.py', 130]],
+                  'students': ['answer.py', 'helper.py'], 'offsets': {'answer.py': 10}, 'syntax': None})
+    for _ in range(300 if ctx.tier == 'quick' else 4000):
+        chain = [[rng.choice(pool), rng.randrange(2, 60)] for _ in range(rng.randrange(1, 7))]
+        students = rng.sample(pool[:3], rng.randrange(0, 3))
+        offsets = {f: rng.randrange(1, 30) for f in rng.sample(pool, rng.randrange(0, 3))}
+        syntax = [rng.choice(pool[:3]), rng.randrange(1, 40)] if rng.random() < 0.15 else None
+        specs.append({'chain': chain, 'students': students, 'offsets': offsets, 'syntax': syntax})
+    res = vlib.run_impl('c06_impl.py', {'locations': specs}, timeout=600)['locations']
+    items, idx = [], []
+    for si, (sp, r) in enumerate(zip(specs, res)):
+        ctx.case(('location', json.dumps(sp, sort_keys=True)), nontrivial=any(f in sp['students'] for f, _ in sp['chain']))
+        ctx.count('location:' + ('student-frame-on-the-stack' if any(f in sp['students'] for f, _ in sp['chain']) else 'no-student-frame'))
+        if 'error' in r:
+            ctx.violation('location-raises', {'spec': sp, 'observed': r, 'why': 'building the traceback raised %s' % r['error']})
+            continue
+        # the oracle of the property itself: with learner code on the stack the line is the innermost learner frame's (+ offset)
+        if not sp['syntax']:
+            mine = [(f, l) for f, l in r['frames'] if f in sp['students']]
+            if mine:
+                want = mine[-1][1] + sp['offsets'].get(mine[-1][0], 0)
+                if r['line'] != want:
+                    ctx.violation('location-not-the-learners-line', {'spec': sp, 'observed': r, 'why':
+                                  'the innermost frame in a learner file is %s line %d (+%d) but the failure is located on line %s'
+                                  % (mine[-1][0], mine[-1][1], sp['offsets'].get(mine[-1][0], 0), r['line'])})
+        ids = {}
+        for f, _ in r['frames']:
+            ids.setdefault(f, len(ids))
+        for f in list(sp['students']) + list(sp['offsets']) + ([sp['syntax'][0]] if sp['syntax'] else []):
+            ids.setdefault(f, len(ids))
+        frames = clist(['(%d, %d)' % (ids[f], l) for f, l in r['frames']])
+        items.append('(%s, %s, %s, %s, %d)' % (clist([str(ids[f]) for f in sp['students']]),
+                                               clist(['(%d, %d)' % (ids[f], n) for f, n in sp['offsets'].items()]),
+                                               'None' if not sp['syntax'] else '(Some (%d, %d))' % (ids[sp['syntax'][0]], sp['syntax'][1]),
+                                               frames, r['line']))
+        idx.append(si)
+    bad = ctx.coq_cases('location', LOC_HEADER, items, 'check_location', chunk=400)
+    ctx.obligation('correspondence:location(model = ExpandedTraceback.line_number on %d real tracebacks)' % len(items), not bad,
+                   str([specs[idx[i]] for k, i, d in bad if k == 'mismatch'][:3])[:1200])
+    for b in bad[:3]:
+        ctx.broken.append(('correspondence', 'C06:location', json.dumps(specs[idx[b[1]]]) if b[0] == 'mismatch' else b[2]))
+
+
 def run(ctx):  # noqa: F811
     translate(ctx)
     ctx.coq_props()
     correspondence(ctx)
+    location_correspondence(ctx)
